@@ -310,12 +310,12 @@ func c16Typed[T c16num](ctx *run.Ctx, typ string, elem func(stream, i int) T) {
 	census := mon.NewCensus()
 	for _, hc := range helperCases[T]() {
 		hc := hc
-		maxLen := 6
+		maxLen := ctx.Pick(6, 8)
 		if hc.nin == 2 {
-			maxLen = 4
+			maxLen = ctx.Pick(4, 5)
 		}
 		if hc.nin == 3 {
-			maxLen = 3
+			maxLen = ctx.Pick(3, 4)
 		}
 		ctx.Case(fmt.Sprintf("%s/%s/exhaustive", hc.name, typ), func(cc *run.Case) {
 			for _, lens := range lengthTuples(hc.nin, maxLen) {
@@ -345,7 +345,7 @@ func c16Typed[T c16num](ctx *run.Ctx, typ string, elem func(stream, i int) T) {
 		})
 		// Random longer inputs.
 		ctx.Case(fmt.Sprintf("%s/%s/random", hc.name, typ), func(cc *run.Case) {
-			reps := ctx.Pick(6, 60)
+			reps := ctx.Pick(6, 400)
 			for rep := 0; rep < reps; rep++ {
 				inputs := make([][]T, hc.nin)
 				for k := range inputs {
